@@ -375,6 +375,25 @@ class C14(Property):
                 a = self.gene(rng, "a", sa)
                 b = self.gene(rng, "b", sb)
             yield {"kind": "pair", "a": a, "b": b}
+        # two-gene chains through generate_domains on both strands: every ordered pair of short strings over the
+        # reduced behavioural alphabet, strided to a budget (the strand decides which gene is upstream)
+        reduced2 = [b for b in self.behavioural() if b[0] not in ("TD", "Abhydrolase_1", "ACPS", "Condensation_Starter",
+                                                                  "TIGR01720")]
+        strings2 = [c for n in range(1, 3) for c in itertools.product(reduced2, repeat=n)]
+        budget2 = 6000 if deep else 400
+        step2 = max(1, (len(strings2) ** 2) // budget2)
+        k2 = rng.randrange(step2)
+        for a in strings2:
+            for b in strings2:
+                k2 += 1
+                if k2 % step2:
+                    continue
+                strand = -1 if (k2 // step2) % 3 else 1
+                yield {"kind": "chain", "genes": [
+                    {"name": "left", "strand": strand, "region": 0, "motifs": False,
+                     "domains": [[l, list(s), 10 * i + 1, 10 * i + 9] for i, (l, s) in enumerate(a)]},
+                    {"name": "right", "strand": strand, "region": 0, "motifs": False,
+                     "domains": [[l, list(s), 10 * i + 1, 10 * i + 9] for i, (l, s) in enumerate(b)]}]}
         for _ in range(400 * scale):
             n = rng.choice([2, 3, 3, 4, 5])
             strand = rng.choice([1, -1])
@@ -517,7 +536,7 @@ class C14(Property):
                         impl_merged=(spec_view([obs["merged"]])[0] if obs.get("merged") else None))
         elif kind == "chain":
             line.update(genes=case["genes"],
-                        impl_genes=[spec_view(g["modules"]) for g in obs.get("genes", [])])
+                        impl_genes=[{"name": g["name"], "modules": spec_view(g["modules"])} for g in obs.get("genes", [])])
         return line
 
     # ------------------------------------------------------------------ judge
@@ -636,6 +655,10 @@ class C14(Property):
             corr = (len(og) == len(mg) and all(a["name"] == b["name"] and self._same_modules(a["modules"], b["modules"])
                                                for a, b in zip(og, mg)))
             crossing = 0
+            if not spec["line"]:
+                problems.append("assembly line: a reported module is not a contiguous block of the genes' domains "
+                                "read in transcription order (upstream gene's trailing end + downstream gene's "
+                                "leading end), or modules are out of order across genes")
             for g, sg in zip(og, spec["genes"]):
                 for m, s in zip(g["modules"], sg):
                     problems += [f"{g['name']}:{p}" for p in self._module_spec(m, s)]
